@@ -121,4 +121,4 @@ def run(ctx: vlib.Ctx):
         except BaseException as e:  # noqa: BLE001 - C20/C14 own tool robustness; count only
             ctx.count("eject_json_raised:" + type(e).__name__)
     ctx.assumptions = ["the content model (tools/harness/docgen.py) is the oracle: expected content is computed without any parser",
-                       "proved for all inputs of the class: content preservation at document level for flat documents and arbitrarily nested blocks with scalar values (Props/C01roundtrip, C01tree), list values at parser level (C02lists), reader value typing; documents with comments, META, sections, lists inside documents, zones: open proof targets, decided by the content oracle and the correspondence"]
+                       "proved for all inputs of each class (the Props modules listed under coverage.theorems): content preservation at document level for flat documents, nested blocks, META + trees, sections, list values, comments (leading / trailing / orphan / end-of-document), reader value typing; mixtures outside the listed classes, inline maps, holographic values, zones in lists: decided by the content oracle and the correspondence"]
